@@ -12,49 +12,49 @@ BE = "bounded-exhaustive enumeration of inputs / programs / configurations on th
 
 CLAIMED = {
   "C01": ("model_checking",
-          "Closure of the evaluator over ALL Boolean functions of k<=3 named variables: every node kind of the language on every operand tuple, executed by the real ParsedFormula::eval and compared with the truth-table definition; by structural induction this covers formulas of any depth over those variables. Plus every formula text with <= 4 AST nodes over the full alphabet (all alias spellings, two parenthesisations) and deeper strata through the real parser+evaluator, and the stdout table of the real binary. Right level: the property quantifies over all programs; the compositional core has a finite, fully explored state space, the text front end is enumerated to a stated bound.",
+          "Closure of the evaluator over ALL Boolean functions of k<=3 named variables: every node kind of the language on every operand tuple, executed by the real ParsedFormula::eval and compared with the truth-table definition; by structural induction this covers formulas of any depth over those variables. Plus every formula text with <= 4 AST nodes over the full alphabet (all alias spellings, two parenthesisations) and deeper strata through the real parser+evaluator, the stdout table of the real binary, plus structured larger-scope families (every node kind in every child position; chains to depth 40; counting lists to 9 operands; and/or chains over 33-70 variables against closed-form diagrams; fixed points needing up to 64 rounds against a bit-vector reference). Right level: the property quantifies over all programs; the compositional core has a finite, fully explored state space, the text front end is enumerated to a stated bound.",
           "DESIGN.md §1, §3 C01", "trusted: reference semantics in harness/src/refl.rs (golden-tested), canon()/truth-table walkers in robdd.rs; bounds: k<=3 variables for the closure, AST size for texts, fixed points only where the reference iteration converges", MC),
   "C02": ("model_checking",
-          "Every transition result of the API closure and of the evaluator closure (k<=3, all operators incl. quantifier and counting detours) must be literally == an independently built reduced ordered diagram, hash-equal, ordered and reduced; every function of 4 variables along seven construction routes in a shared and in a fresh environment; cross-environment == iff equal truth tables on all 65536 pairs of F_3; outputs of model/retain/exists/all/aln/amn/exn/fp on all of F_4 canonical. Right level: canonicity is a statement about all construction routes; the closure makes every route over k<=3 variables a composition of checked transitions.",
+          "Every transition result of the API closure and of the evaluator closure (k<=3, all operators incl. quantifier and counting detours) must be literally == an independently built reduced ordered diagram, hash-equal, ordered and reduced; every function of 4 variables along seven construction routes in a shared and in a fresh environment; cross-environment == iff equal truth tables on all 65536 pairs of F_3; outputs of model/retain/exists/all/aln/amn/exn/fp on all of F_4 canonical; operands that were never interned in the operating environment; a 185-member family over 6 variables on two symbol sets (ids up to 10^6). Right level: canonicity is a statement about all construction routes; the closure makes every route over k<=3 variables a composition of checked transitions.",
           "DESIGN.md §1, §3 C02", "trusted: canon() and is_ordered_reduced in harness/src/robdd.rs; bounds: k<=4 variables", MC),
   "C03": ("model_checking",
-          "BFS closure through BDDEnv<usize>'s public connectives from {true,false,var} reaches all 2^(2^k) functions (k=2,3); then every connective on every operand tuple (ite: complete for k=2, condition restricted to literals/constants for k=3 in quick, all 16.7M triples in thorough), plus all 65536 functions of 4 variables against a basis in both argument positions; oracle = pointwise truth-table operation, operands unchanged.",
+          "BFS closure through BDDEnv<usize>'s public connectives from {true,false,var} reaches all 2^(2^k) functions (k=2,3); then every connective on every operand tuple (ite: complete for k=2, condition restricted to literals/constants for k=3 in quick, all 16.7M triples in thorough), plus all 65536 functions of 4 variables against a basis in both argument positions, the k=3 sweep again with operands never interned in the operating environment, and a 185-member family over 6 variables on two symbol sets; oracle = pointwise truth-table operation, operands unchanged.",
           "DESIGN.md §1, §3 C03", "trusted: truth-table walker; bounds: k<=4", MC),
   "C04": ("exploration",
-          "Every function over 3 and 4 ordered variables x every variable list of length <=3 (<=2 for k=4 in quick) incl. repeats and variables above/between/below the support x exists/all/exists_impl, with the algebraic side conditions of the property (independence of order and repetition, no quantified variable left, identity on disjoint lists, duality); plus every quantifier formula text up to 4 (5) AST nodes.",
+          "Every function over 3 and 4 ordered variables x every variable list of length <=3 (<=2 for k=4 in quick) incl. repeats and variables above/between/below the support x exists/all/exists_impl, with the algebraic side conditions of the property (independence of order and repetition, no quantified variable left, identity on disjoint lists, duality); plus the language's quantifier node on every function x list through the real evaluator, every quantifier formula text up to 4 (5) AST nodes (incl. quantifiers inside fixed points), every permutation of six quantified variables on a 6-variable family, variable ids congruent modulo 32/64, and and/or chains over 33-70 variables.",
           "DESIGN.md §3 C04", "trusted: brute-force cofactor quantification; bounds: k<=4, |V|<=3", BE),
   "C05": ("exploration",
-          "Every operand list up to length 4 over all functions of 2 variables and up to length 2 over all functions of 3 variables x every bound in -2..L+2 and the admissible i64 extremes x aln/amn/exn; every pair of lists x the five list comparisons; every counting formula text to a node bound and the extreme-constant family around 2^63 / 2^64.",
+          "Every operand list up to length 4 over all functions of 2 variables and up to length 2 over all functions of 3 variables x every bound in -2..L+2 and the admissible i64 extremes x aln/amn/exn; every pair of lists x the five list comparisons; a structured family of lists of 5..9 operands over 6 variables, every counting formula text to a node bound and the extreme-constant family around 2^63 / 2^64.",
           "DESIGN.md §3 C05", "trusted: per-assignment integer counting; bounds: k<=3, list length<=4", BE),
   "C06": ("exploration",
-          "Every fixed-point body up to 5 (6) AST nodes over a binder-rich alphabet: the reference computes the transformer on ALL lattice points, decides monotonicity by brute force and compares the real lfp/mu/gfp/nu result against all pre-/post-fixed points (least / greatest among all competitors), with termination decided by a deterministic iteration budget; BDDEnv::fp on all 256 self-maps of a 4-element domain x all starts with a call-counting closure.",
+          "Every fixed-point body up to 5 (6) AST nodes over a binder-rich alphabet: the reference computes the transformer on ALL lattice points, decides monotonicity by brute force and compares the real lfp/mu/gfp/nu result against all pre-/post-fixed points (least / greatest among all competitors), with termination decided by a deterministic iteration budget; BDDEnv::fp on all 256 self-maps of a 4-element domain x all starts and on strictly increasing chains of every length 1..65 with a call-counting closure; k-bit counter reachability (2^k rounds, k <= 6) and its gfp dual against a bit-vector reference.",
           "DESIGN.md §3 C06", "trusted: reference semantics; hook H1 (fuel) for termination; bounds: body size, lattices of 16/256 points", BE),
   "C07": ("exploration",
-          "model() on every function of 3 and 4 variables (cube shape, support, implication, False iff unsatisfiable), infer() on every model and variable, structured families k=5..8 exhaustively, and `rsbdd -m -t` on every CLI formula up to 3 (4) nodes.",
+          "model() on every function of 3 and 4 variables (cube shape, support, implication, False iff unsatisfiable), also on diagrams never interned in the environment asked, infer() on every model AND every function x every variable, structured families k=5..8 exhaustively, and `rsbdd -m -t` on every CLI formula up to 3 (4) nodes.",
           "DESIGN.md §3 C07", "trusted: cube/truth-table walkers, table reader; bounds: k<=4 exhaustive", BE),
   "C08": ("exploration",
-          "bounded-exhaustive enumeration on the real lexer/parser: every string <= 5 (6) characters over a 16-character lexical alphabet, every token sequence <= 4 (5; 6 over one representative per grammar class) over the full 33-kind token alphabet and <= 3 (4) over all 47 spellings, every grammar sentence with <= 3 (4) AST nodes in three print styles and every one-token deletion/insertion/replacement of every sentence with <= 2 (3) nodes over the full alphabet and <= 4 (5) nodes over a syntactic alphabet; each compared (Err vs Ok(tree)) with an independent LL(1) reference.",
+          "bounded-exhaustive enumeration on the real lexer/parser: every string <= 5 (6) characters over a 16-character lexical alphabet, every token sequence <= 4 (5; 6 over one representative per grammar class) over the full 33-kind token alphabet and <= 3 (4) over all 47 spellings, every grammar sentence with <= 3 (4) AST nodes and the depth-2 family (every node kind in every child position) in three print styles and every one-token deletion/insertion/replacement of every sentence with <= 2 (3) nodes over the full alphabet and <= 4 (5) nodes over a syntactic alphabet; each compared (Err vs Ok(tree)) with an independent LL(1) reference.",
           "DESIGN.md §3 C08", "trusted: the reference lexer/parser in harness/src/refl.rs (cross-checked by printer/parser round trip on every sentence and golden cases); bounds: string length, token count, AST size as stated", BE),
   "C09": ("exploration",
           "Every reference-free AST up to 5 (6) nodes over a binder-heavy alphabet under the default and the reversed explicit variable order: free_vars, vars, raw2free/to_free_index and the support of eval() against the reference free-variable analysis.",
           "DESIGN.md §3 C09", "trusted: reference FV in refl.rs; bounds: AST size", BE),
   "C10": ("exploration",
-          "The real rsbdd binary on every CLI formula up to 3 (4) nodes x filters, and on smaller formulas the complete configuration lattice (15 filter spellings + rejected near-misses, 3 input channels, every permutation/subset/superset ordering file, -v, -b N) incl. a full cross product on a 14-formula core; the printed table is read back and must be a disjoint cover with the reference value on every covered assignment.",
+          "The real rsbdd binary on every CLI formula up to 3 (4) nodes x filters, and on smaller formulas the complete configuration lattice (15 filter spellings + rejected near-misses, 3 input channels incl. multi-line input, every permutation/subset/superset ordering file, -v, -b N) incl. a full cross product on a 14-formula core; the printed table is read back and must be a disjoint cover with the reference value on every covered assignment.",
           "DESIGN.md §3 C10", "trusted: table reader (cells only), reference semantics and variable-order rule; bounds: formula size, <=6 names", BE),
   "C11": ("exploration",
-          "Every CLI formula with 2..4 names x the complete ordering family (all permutations, ordered strict subsets, supersets, duplicates, decorated texts) through the real binary (-t, -r, -r re-import byte-identical, -d edge order) and through the API with non-contiguous ids for every permutation.",
+          "Every CLI formula with 2..4 names x the complete ordering family (all permutations, ordered strict subsets, supersets, duplicates, decorated texts) through the real binary (-t, -r, -r re-import byte-identical, -d edge order) and through the API with non-contiguous ids (congruent modulo 32/64) for every permutation and every ordered strict subset as a partial ordering.",
           "DESIGN.md §3 C11", "trusted: reference semantics, DOT reader; bounds: formula size, <=4 names", BE),
   "C12": ("exploration",
-          "bounded-exhaustive enumeration under catch_unwind / exit-status observation: every byte string <= 2 (3) bytes over all 256 values, every sequence of <= 4 (5) lexemes incl. extreme numbers, non-ASCII digits, unbalanced quotes/braces and NUL, flat inputs of every length 2^j and 2^j+-1 up to 64 KiB, every nesting depth 1..200 of nine nesting constructs, and the real rsbdd binary on a formula core x all 576 option combinations x 4 ordering files x 3 input channels plus every lexeme soup <= 2 (3) as formula and as ordering file.",
+          "bounded-exhaustive enumeration under catch_unwind / exit-status observation: every byte string <= 2 (3) bytes over all 256 values, every sequence of <= 4 (5) lexemes incl. extreme numbers, non-ASCII digits, unbalanced quotes/braces and NUL, flat inputs of every length 2..40, 2^j and 2^j+-1 up to 64 KiB incl. runs of 2-, 3- and 4-byte non-ASCII digits, every nesting depth 1..200 of nine nesting constructs, and the real rsbdd binary on a formula core x all 576 option combinations (+ -b 0 / -b 2 with every print-flag set) x 4 ordering files x 3 input channels plus every lexeme soup <= 2 (3) as formula and as ordering file.",
           "DESIGN.md §3 C12", "panic = unwinding panic caught in-process, exit status 101 / signal / no termination within 60 s for the binary; aborts (stack overflow) are found through the worker-crash path of the runner; evaluation only of formulas whose fixed points the reference finds convergent", BE),
   "C13": ("model_checking",
-          "Explicit-state exploration of the hidden state of BDDEnv (contents of the unique table) for 2 variables: ALL 4228 child-closed table states, each built in a fresh real environment by a history of public calls, x every public operation on every tuple of interned nodes, with the sharing / leaf / size / monotonicity invariants and comparison with a fresh environment after every transition, an abstraction-soundness check (equal tables have equal futures) on every state-changing edge, and all formula sequences <= 3 on a shared environment.",
+          "Explicit-state exploration of the hidden state of BDDEnv (contents of the unique table) for 2 variables: ALL 4228 child-closed table states, each built in a fresh real environment by a history of public calls, x every public operation on every tuple of interned nodes, with the sharing / leaf / size / monotonicity invariants and comparison with a fresh environment after every transition, an abstraction-soundness check (equal tables have equal futures) on every state-changing edge, all sequences of 2-3 operations (all connectives, exists, model, both retain filters, clean) on ONE long-lived environment with only the results held, one environment grown to ~66 000 nodes with sharing / recomputation checks, and all formula sequences <= 3 on a shared environment.",
           "DESIGN.md §3 C13", "trusted: state abstraction = table contents (checked by the abstraction check); bounds: 2 variables for the complete state space", MC),
   "C14": ("exploration",
           "Every function of 3 and 4 variables with names that need escaping x 3 filters through the real DOT exporter, read back by an independent reader and evaluated; every parse tree up to 3 (4) nodes over an alphabet with every node kind read back as a term; -d/-p files of the real binary compared with the API rendering.",
           "DESIGN.md §3 C14", "trusted: DOT reader (dot.rs); bounds: k<=4, AST size", BE),
   "C15": ("exploration",
-          "The real n_queens_gen for n=1..12: exact model-set equality with an independent solver up to n=8 (10) by exhaustive enumeration, the real rsbdd on the output up to n=6 (7), structural exactness of the constraint families and attack-pair coverage up to n=12.",
+          "The real n_queens_gen for n=1..12: exact model-set equality with an independent solver up to n=8 (10) by exhaustive enumeration, the real rsbdd on the output up to n=6 (7), structural exactness of the constraint families and attack-pair coverage up to n=12, and structural exactness for 19 larger boards up to n=300 (around the 8- and 16-bit limits).",
           "DESIGN.md §3 C15", "trusted: reference semantics/enumerator in puzzles.rs, brute-force queens solver", BE),
   "C16": ("exploration",
           "The real max_clique_gen on every edge set over 3 named vertices incl. self-loops (and over 4 vertices in thorough), every edge list <= 3, name families incl. vertices named like copies, x -u x -a: models of the emitted text by brute force = brute-force (maximum) cliques = what the real rsbdd lists.",
@@ -63,13 +63,13 @@ CLAIMED = {
           "The real sudoku_gen: r=1 all puzzle texts <= 3 chars; r=2 the empty puzzle and every pattern of <= 2 givens in three layouts with exact model-set bijection against the 288 valid 4x4 grids; r=3 structural exactness plus rejection of all single-cell changes and in-row swaps of three valid grids.",
           "DESIGN.md §3 C17", "trusted: constraint-DFS enumerator (sound three-valued pruning), brute-force 4x4 solver", BE),
   "C18": ("exploration",
-          "The real random_graph_gen with every random choice owned through the scripted-RNG hook: all m! shuffle outcomes for every candidate list of <= 6 edges x every edge count x formats, with a counting argument that the hook covers exactly all ordered selections; --complete, --convert on all edge lists <= 3, --colors on every loop-free graph on <= 4 vertices x k<=3 against brute-force colourability.",
+          "The real random_graph_gen with every random choice owned through the scripted-RNG hook: all m! shuffle outcomes for every candidate list of <= 6 edges x every edge count x formats, every ordered selection of <= 2 (3) edges for candidate lists of 10..20 edges, with a counting argument that the hook covers exactly all ordered selections; --complete, --convert on all edge lists <= 3, --colors on every loop-free graph on <= 4 vertices (two name families, one with names that are prefixes of each other) x k<=3 against brute-force colourability.",
           "DESIGN.md §3 C18", "hook H2 (scripted RNG); bounds: V<=3 directed / V<=4 undirected for the exhaustive shuffle enumeration; fresh-entropy runs are a labelled sampled supplement", BE),
   "C19": ("model_checking",
           "Explicit-state BFS over all pairs of subsets of a 2-bit (256 states) and 3-bit (65536 states) universe, every state rebuilt on real BDDSets by replaying its path, every operation incl. self-aliased operands and the query, followed by membership of every element forwards and backwards; plus all operation sequences up to depth 4 (5) on one long-lived pair.",
           "DESIGN.md §3 C19", "trusted: bit-mask reference sets; bounds: b<=3 bits, two sets", MC),
   "C20": ("exploration",
-          "retain_choice_bottom_up on every function of 3 and 4 variables x 3 filters (implication direction, identity for Any, ordered/reduced, support, sharing) and `rsbdd -c` on every CLI formula up to 3 (4) nodes.",
+          "retain_choice_bottom_up on every function of 3 and 4 variables x 3 filters (implication direction, identity for Any, ordered/reduced, support, sharing; also on diagrams never interned in the environment) and `rsbdd -c` on every CLI formula up to 3 (4) nodes.",
           "DESIGN.md §3 C20", "trusted: truth-table walker, table reader; bounds: k<=4", BE),
 }
 
